@@ -103,6 +103,22 @@ func TestC06(t *testing.T) {
 					}
 				}
 			}
+			if mode == "Apply" && !bad {
+				// applying again with another closure of the same literal must take effect
+				var perr2 interface{}
+				func() {
+					defer func() { perr2 = recover() }()
+					inst.Apply(b, &rec, v+1)
+				}()
+				for i := 0; i < 3 && perr2 == nil; i++ {
+					got, p := safe(m.Forms["pointer"], i, 7)
+					rep.Eval(1)
+					if p != nil || got != v+1 {
+						rep.Violate("C06/re-apply-not-in-effect", fmt.Sprintf("%s: Apply(cb %d) then Apply(cb %d) on the same builder: instance %d returned %d (panic %v), want %d", key(m), v, v+1, i, got, p, v+1), c)
+						break
+					}
+				}
+			}
 			b.Reset()
 			for i := 0; i < 3; i++ {
 				for _, f := range forms {
@@ -226,6 +242,14 @@ func (w Wide[T]) Get(a int) int { return int(w.pad[5]) + a + 600 }
 //go:noinline
 func (g *G[T]) Many(a, b, c, d, e, f, h int) int { return g.n + a + b + c + d + e + f + h + 700 }
 
+type Box[T any] struct {
+	v T
+	n int
+}
+
+//go:noinline
+func (b Box[T]) Val() int { return b.n + 900 }
+
 func TestC06Generics(t *testing.T) {
 	rep := vmon.NewReport("C06")
 	defer rep.Write()
@@ -237,19 +261,25 @@ func TestC06Generics(t *testing.T) {
 	}
 	gi, gi64, gs, ga, gb, garr := &G[int]{n: 1}, &G[int64]{n: 2}, &G[string]{n: 3}, &G[*GA]{n: 4}, &G[*GB]{n: 5}, &G[[2]int]{n: 6}
 	insts := []inst{
-		{"G[int]", "int", gi.Get, gi.Other, func(b *mocker.Builder, v int) { b.Struct(&G[int]{}).Method("Get").Return(v) }},
-		{"G[int64]", "int64", gi64.Get, gi64.Other, func(b *mocker.Builder, v int) { b.Struct(&G[int64]{}).Method("Get").Return(v) }},
-		{"G[string]", "string", gs.Get, gs.Other, func(b *mocker.Builder, v int) { b.Struct(&G[string]{}).Method("Get").Return(v) }},
-		{"G[*GA]", "ptr", ga.Get, ga.Other, func(b *mocker.Builder, v int) { b.Struct(&G[*GA]{}).Method("Get").Return(v) }},
-		{"G[*GB]", "ptr", gb.Get, gb.Other, func(b *mocker.Builder, v int) { b.Struct(&G[*GB]{}).Method("Get").Return(v) }},
-		{"G[[2]int]", "arr", garr.Get, garr.Other, func(b *mocker.Builder, v int) { b.Struct(&G[[2]int]{}).Method("Get").Return(v) }},
+		{"G[int]", "int", func(a int) int { return gi.Get(a) }, gi.Other, func(b *mocker.Builder, v int) { b.Struct(&G[int]{}).Method("Get").Return(v) }},
+		{"G[int64]", "int64", func(a int) int { return gi64.Get(a) }, gi64.Other, func(b *mocker.Builder, v int) { b.Struct(&G[int64]{}).Method("Get").Return(v) }},
+		{"G[string]", "string", func(a int) int { return gs.Get(a) }, gs.Other, func(b *mocker.Builder, v int) { b.Struct(&G[string]{}).Method("Get").Return(v) }},
+		{"G[*GA]", "ptr", func(a int) int { return ga.Get(a) }, ga.Other, func(b *mocker.Builder, v int) { b.Struct(&G[*GA]{}).Method("Get").Return(v) }},
+		{"G[*GB]", "ptr", func(a int) int { return gb.Get(a) }, gb.Other, func(b *mocker.Builder, v int) { b.Struct(&G[*GB]{}).Method("Get").Return(v) }},
+		{"G[[2]int]", "arr", func(a int) int { return garr.Get(a) }, garr.Other, func(b *mocker.Builder, v int) { b.Struct(&G[[2]int]{}).Method("Get").Return(v) }},
 	}
 	wi, ws := Wide[int]{pad: [6]int64{0, 0, 0, 0, 0, 5}}, Wide[string]{pad: [6]int64{0, 0, 0, 0, 0, 6}}
 	insts = append(insts,
-		inst{"Wide[int].Get", "wide-int", wi.Get, func(a int) int { return gi.Other(a) }, func(b *mocker.Builder, v int) { b.Struct(Wide[int]{}).Method("Get").Return(v) }},
-		inst{"Wide[string].Get", "wide-string", ws.Get, func(a int) int { return gs.Other(a) }, func(b *mocker.Builder, v int) { b.Struct(Wide[string]{}).Method("Get").Return(v) }},
+		inst{"Wide[int].Get", "wide-int", func(a int) int { return wi.Get(a) }, func(a int) int { return gi.Other(a) }, func(b *mocker.Builder, v int) { b.Struct(Wide[int]{}).Method("Get").Return(v) }},
+		inst{"Wide[string].Get", "wide-string", func(a int) int { return ws.Get(a) }, func(a int) int { return gs.Other(a) }, func(b *mocker.Builder, v int) { b.Struct(Wide[string]{}).Method("Get").Return(v) }},
 		inst{"G[int].Many", "many-int", func(a int) int { return gi.Many(a, 1, 2, 3, 4, 5, 6) }, func(a int) int { return gi.Other(a) }, func(b *mocker.Builder, v int) { b.Struct(&G[int]{}).Method("Many").Return(v) }},
 		inst{"G[string].Many", "many-string", func(a int) int { return gs.Many(a, 1, 2, 3, 4, 5, 6) }, func(a int) int { return gs.Other(a) }, func(b *mocker.Builder, v int) { b.Struct(&G[string]{}).Method("Many").Return(v) }},
+	)
+	bi, bs := Box[int]{n: 7}, Box[string]{n: 8}
+	insts = append(insts,
+		inst{"Box[int].Val", "box-int", func(a int) int { return bi.Val() }, func(a int) int { return gi.Other(a) }, func(b *mocker.Builder, v int) { b.Struct(Box[int]{}).Method("Val").Return(v) }},
+		inst{"Box[string].Val", "box-string", func(a int) int { return bs.Val() }, func(a int) int { return gs.Other(a) }, func(b *mocker.Builder, v int) { b.Struct(Box[string]{}).Method("Val").Return(v) }},
+		inst{"Box[int].Val via method value", "box-int", func(a int) int { f := bi.Val; return f() }, func(a int) int { return gi.Other(a) }, func(b *mocker.Builder, v int) { b.Struct(Box[int]{}).Method("Val").Return(v) }},
 	)
 	orig := make([]int, len(insts))
 	oorig := make([]int, len(insts))
